@@ -25,7 +25,7 @@ theorem C03_source_find_compatible (X : Ext) (hX : SetExt X) (l : List String) (
   have key := forLoop_find_eq ctv (fun c => C03.compatible c ct)
     (fun st => st.env.lookup "v1" = some (ctv ct))
     (fun a v _ => v = ctv a) hf (by simp [List.lookup]) (by
-      intro a st h1
+      intro a _ st h1
       constructor <;> intro hp <;> simp [hX.compatible, hp, h1, List.lookup])
   cases hfind : List.find? (fun c => C03.compatible c ct) l with
   | none =>
